@@ -297,6 +297,7 @@ func (rn *runner) replay(path string) {
 		return
 	}
 	var w struct {
+		Seed int64   `json:"seed"`
 		Sig  string  `json:"signature"`
 		Case caseRec `json:"case"`
 	}
@@ -304,6 +305,7 @@ func (rn *runner) replay(path string) {
 		r.Inconclusive("cannot parse replay file: " + err.Error())
 		return
 	}
+	r.Seed = w.Seed // the case's PRNG streams derive from the seed it was found under
 	if w.Case.History != nil {
 		findings, _ := walletlab.Analyze(w.Case.History, porcupineTimeout)
 		for _, f := range findings {
